@@ -8,6 +8,7 @@ import (
 	"bytes"
 	"fmt"
 	"strconv"
+	"strings"
 
 	"github.com/Tom-Johnston/mamba/dawg"
 
@@ -62,7 +63,30 @@ func Detail(workload string, set *refdawg.Set, extra map[string]interface{}) map
 
 // PanicKey is the key of a panic violation.
 func PanicKey(api string, pi *engine.PanicInfo, witness string) string {
-	return api + "|panic|" + engine.SiteNoLine(pi.Site) + "|" + witness
+	return api + "|panic|" + Site(pi) + "|" + witness
+}
+
+// Site is the innermost library frame of a panic as "pkg/file.go function",
+// without the line number.  engine.SiteNoLine(pi.Site) cuts a method name at
+// the parenthesis of its receiver ("dawg.(*Dawg).GobDecode" becomes "dawg."),
+// so the function name is taken from the stack text here.
+func Site(pi *engine.PanicInfo) string {
+	site := engine.SiteNoLine(pi.Site)
+	file := site
+	if i := strings.IndexByte(site, ' '); i >= 0 {
+		file = site[:i]
+	}
+	const pfx = "github.com/Tom-Johnston/mamba/"
+	for _, line := range strings.Split(pi.Stack, "\n") {
+		if strings.HasPrefix(line, pfx) {
+			fn := strings.TrimPrefix(line, pfx)
+			if j := strings.LastIndexByte(fn, '('); j > 0 {
+				fn = fn[:j]
+			}
+			return file + " " + fn
+		}
+	}
+	return site
 }
 
 // Build calls dawg.New on fresh copies of the words.
@@ -385,4 +409,36 @@ func Report(c *engine.Ctx, f *Finding, pi *engine.PanicInfo, api, witness string
 	if f != nil {
 		c.Violation(api+"|"+f.Kind+"|"+witness, detail, f.Observed, f.Expected)
 	}
+}
+
+// NodesSameShape compares two node dumps up to a renaming of the ids: the
+// dumps are breadth-first from the root in label order, so corresponding nodes
+// have the same position.  It returns a description of the first difference
+// and whether the ids themselves are equal too.
+func NodesSameShape(a, b []dawg.VerifNode) (diff string, sameIDs bool) {
+	if len(a) != len(b) {
+		return fmt.Sprintf("%d nodes vs %d nodes", len(a), len(b)), false
+	}
+	ia := make(map[uint64]int, len(a))
+	ib := make(map[uint64]int, len(b))
+	sameIDs = true
+	for i := range a {
+		ia[a[i].ID] = i
+		ib[b[i].ID] = i
+		if a[i].ID != b[i].ID {
+			sameIDs = false
+		}
+	}
+	for i := range a {
+		x, y := a[i], b[i]
+		if x.Final != y.Final || x.NumWords != y.NumWords || !bytes.Equal(x.Labels, y.Labels) || len(x.Children) != len(y.Children) {
+			return fmt.Sprintf("node #%d (breadth-first) differs: %+v vs %+v", i, x, y), sameIDs
+		}
+		for k := range x.Children {
+			if ia[x.Children[k]] != ib[y.Children[k]] {
+				return fmt.Sprintf("node #%d (breadth-first): link %d leads to node #%d vs node #%d", i, k, ia[x.Children[k]], ib[y.Children[k]]), sameIDs
+			}
+		}
+	}
+	return "", sameIDs
 }
